@@ -38,7 +38,7 @@ ASSUMPTIONS = ["a stale answer for the *same* property is indistinguishable by d
 
 OBJ = {11: "OBJECT_KNXNETIP_PARAMETER", 0: "OBJECT_DEVICE", 8: "OBJECT_CEMI_SERVER"}
 ANSWERS = ["ok", "ok", "ok", "late", "twice", "other_property", "other_object", "other_instance", "other_type", "ind_then_ok",
-           "none", "error", "wrong_then_ok", "wrong+ok_at_once"]
+           "none", "error", "wrong_then_ok", "wrong+ok_at_once", "wrong+close_at_once"]
 ACKS = ["ok", "ok", "ok", "none", "dup", "late", "error"]
 
 
@@ -179,6 +179,19 @@ def run(plan: dict[str, Any]) -> dict[str, Any]:
             srv_send(ch, fr, lat, key=key, value=v)
             fr, key, v = good()
             srv_send(ch, fr, lat, key=key, value=v)
+            return
+        if ans == "wrong+close_at_once":
+            # a frame that is not the answer and the server's DisconnectRequest leave the server back to back: the request
+            # has a (wrong) frame to look at and the connection is gone before it gets to do so - it must fail at once
+            fr, key, v = wrong(rng.choice(["other_property", "other_instance", "other_type"]))
+            srv_send(ch, fr, lat, key=key, value=v)
+
+            def close_now(cid=ch.cid):
+                if info["closed_at"] is None and gw.server_disconnect(cid) is not None:
+                    info["closed_at"] = loop.time()
+                    info["closed_by"] = "srv"
+                    R.extra_faults["srv_disconnect_right_behind_a_wrong_answer"] += 1
+            loop.after(lat, close_now, label="answer")
             return
         if ans == "wrong_then_ok":
             fr, key, v = wrong(rng.choice(["other_property", "other_instance", "other_type"]))
